@@ -276,8 +276,8 @@ pub fn divide_uint_mod_inplace(numerator: &mut [u64], modulus: &Modulus, quotien
     if u64_count == 2 {
         util::divide_u128_u64_inplace(numerator, modulus.value(), quotient);
     } else if u64_count == 1 {
-        numerator[0] = barrett_reduce_u64(numerator[0], modulus);
-        quotient[0] = numerator[0] / modulus.value(); return;
+        quotient[0] = numerator[0] / modulus.value();
+        numerator[0] = barrett_reduce_u64(numerator[0], modulus); return;
     } else {
         // If uint64_count > 2.
         // x = numerator = x1 * 2^128 + x2.
